@@ -65,6 +65,30 @@ def eval_case(case):
         if case['name'] not in db[case['cat']]:
             fails.append(['unknown-name-in-%s' % case['source'].split(':')[0], '%s names %s algorithm %r which the rating database does not know' % (case['source'], case['cat'], case['name'])])
         return mkres(case, nt=True, classes=['ref:' + case['source'].split(':')[0]], fails=fails)
+    if k == 'probe-table-runtime':
+        # the table the host-key probe *actually uses* for a given peer (it is handed to perform_test at run time)
+        from ssh_audit.hostkeytest import HostKeyTest
+        used = []
+        orig = HostKeyTest.perform_test
+
+        def spy(out, s, server_kex, kex_str, kex_group, host_key_types):
+            used.extend(list(host_key_types))
+            return orig(out, s, server_kex, kex_str, kex_group, host_key_types)
+        HostKeyTest.perform_test = staticmethod(spy)
+        try:
+            spec = {'kex': ['curve25519-sha256'], 'key': case['keys'], 'hostkeys': {n: {'t': 'cert', 'kind': 'ssh-ed25519-cert-v01@openssh.com', 'ca': {'t': 'ed25519'}} if '-cert-' in n else {'t': 'ed25519'} for n in case['keys']}}
+            net = fakenet.FakeNet()
+            net.add('h', 22, fakenet.Server(spec))
+            r = drive.run_cli(['-n', '-j', '--skip-rate-test', 'h'], net)
+        finally:
+            HostKeyTest.perform_test = staticmethod(orig)
+        db = dbs['ssh2']
+        unknown = sorted({n for n in used if n not in db['key']})
+        if unknown:
+            fails.append(['probe-table-names-unknown-algorithm-at-run-time', 'peer advertising %r: probe table used %r' % (case['keys'], unknown)])
+        if r.exc:
+            fails.append(['probe-of-table-like-name-crashes:%s' % drive.crash_sig(r), r.brief()])
+        return mkres(case, nt=True, classes=['probe-table-runtime'], fails=fails)
     if k == 'policy-static':
         from ssh_audit.builtin_policies import BUILTIN_POLICIES
         pol = BUILTIN_POLICIES[case['policy']]
@@ -151,6 +175,14 @@ def run(ctx):
         for o in pol.get('optional_host_keys') or []:
             audits.append({'kind': 'policy-audit', 'policy': p, 'optional': [o]})
     ctx.map(pols)
+    # run-time view of the probe table: peers advertising every table name, and look-alike names of other format versions
+    base = sorted(HostKeyTest.HOST_KEY_TYPES)
+    rt = [{'kind': 'probe-table-runtime', 'keys': base}]
+    for b in base:
+        stem = b.split('-cert-')[0] if '-cert-' in b else b
+        for variant in ('%s-cert-v02@openssh.com' % stem, '%s-cert-v00@openssh.com' % stem, '%s-cert-v01@example.com' % stem, stem + '@openssh.com'):
+            rt.append({'kind': 'probe-table-runtime', 'keys': ['ssh-ed25519', variant]})
+    ctx.map(rt)
     ctx.map(audits)
     ctx.exhaustive = True
     ctx.note(db_entries=len(entries), cross_references=len(refs), builtin_policies=len(pols), policy_audits=len(audits))
